@@ -22,8 +22,11 @@ import vlib
 ASFOUND_UNGATED = {"manifest.put", "m:put", "blob.put", "b:put", "image.importTar"}
 
 
+DIMS = ("mt", "feat", "tmo", "cmd")
+
+
 def cfg_key(s):
-    return json.dumps([s["world"], s["par"], s["scripts"]], sort_keys=True)
+    return json.dumps([s["world"], s["par"], s["scripts"]] + [s.get(d, "") for d in DIMS], sort_keys=True)
 
 
 def merge_modes(scns):
@@ -32,7 +35,7 @@ def merge_modes(scns):
     for s in scns:
         k = cfg_key(s)
         c = out.setdefault(k, {"world": s["tags"], "wname": s["world"], "par": s["par"], "scripts": s["scripts"],
-                               "exp": {}, "final": {}, "status": {}})
+                               "mt": s["mt"], "feat": s["feat"], "tmo": s["tmo"], "cmd": s["cmd"], "exp": {}, "final": {}, "status": {}})
         c["exp"][s["mode"]] = s["exp"]
         c["final"][s["mode"]] = s["final"]
         c["status"][s["mode"]] = s["status"]
@@ -78,6 +81,15 @@ def select(ctx, confs, rng):
     for key in sorted(by_op):
         chosen[rng.choice(by_op[key])] = True
         chosen[by_op[key][0]] = True
+    # every value of every config dimension, in every family it is generated for
+    by_dim = {}
+    for i, c in enumerate(confs):
+        for d, v in (("world", c["wname"]), ("mt", c["mt"]), ("feat", c["feat"]), ("tmo", c["tmo"]), ("cmd", c["cmd"])):
+            if v not in ("A", "oci", "full", "default", "once"):
+                by_dim.setdefault((d, v, family(c)), []).append(i)
+    for key in sorted(by_dim):
+        for i in vlib.sample(rng, by_dim[key], 6):
+            chosen[i] = True
     fams = {}
     for i, c in enumerate(confs):
         fams.setdefault(family(c), []).append(i)
@@ -91,7 +103,8 @@ def select(ctx, confs, rng):
         if len(c["scripts"]) > 1:
             first = c["scripts"][0]
             if first[-1]["op"] in ("m:config", "image.config") and len(first) == 2 and first[0]["x"].startswith("a1") \
-                    and c["scripts"][-1][0]["op"].startswith("image.copy") and (len(c["scripts"]) == 2 or c["par"] == 2):
+                    and c["scripts"][-1][0]["op"].startswith("image.copy") and (len(c["scripts"]) == 2 or c["par"] == 2) \
+                    and c["tmo"] in ("default", "none" if c["par"] == 1 else "default"):
                 chosen[i] = True
     return [confs[i] for i in sorted(chosen)]
 
@@ -136,6 +149,8 @@ def drift_of(conf, trace):
                 continue
             want = exp.get((e["s"], e["k"]), ("norun", ""))
             got = (e[st_f], e[abs_f])
+            if conf["feat"] == "min" and e["op"] == "repo.ls":
+                continue  # pages of one entry: repo.ls returns the first page only, (D) does not model paging
             if want != got:
                 notes.append("%s %s s%d k%d: model %s, code %s" % (mode, e["op"], e["s"], e["k"], want, got))
         if not (conf["par"] > 0 and mode == "nor"):
@@ -147,7 +162,7 @@ def drift_of(conf, trace):
 
 
 WRITE_OPS = {"tag.delete", "m:delete", "manifest.put", "m:put", "blob.put", "b:put", "image.copy", "image.copy+dt",
-             "image.copy+fr", "image.importTar"}
+             "image.copy+fr", "image.copy+pf", "image.copy+ie", "image.importTar"}
 
 
 def vlib_kind(op):
@@ -190,16 +205,16 @@ BINDINGS = {
     "manifest.get": "manifest.get", "manifest.getList": "manifest.getList", "manifest.head": "manifest.head",
     "manifest.put": "manifest.put", "manifest.__tostring": "manifest.get",
     "manifest:config": "m:config", "manifest:delete": "m:delete", "manifest:export": "m:export", "manifest:get": "m:get",
-    "manifest:head": "manifest.head", "manifest:put": "m:put", "manifest:ratelimit": "m:ratelimit",
-    "manifest:ratelimitWait": "image.ratelimitWait",
+    "manifest:head": "m:head", "manifest:put": "m:put", "manifest:ratelimit": "m:ratelimit",
+    "manifest:ratelimitWait": "m:ratelimitWait",
     "image.config": "image.config", "image.copy": "image.copy", "image.exportTar": "image.exportTar",
     "image.importTar": "image.importTar", "image.manifest": "image.manifest", "image.manifestHead": "image.manifestHead",
     "image.manifestList": "image.manifestList", "image.ratelimitWait": "image.ratelimitWait",
     "imageconfig.__tostring": "image.config", "imageconfig:export": "c:export",
     "blob.get": "blob.get", "blob.head": "blob.head", "blob.put": "blob.put",
-    "blob:get": "blob.get", "blob:head": "blob.head", "blob:put": "b:put",
+    "blob:get": "b:get", "blob:head": "b:head", "blob:put": "b:put",
     "reference.new": "reference.new", "reference.close": "reference.close", "reference.__tostring": "reference.new",
-    "reference:close": "reference.close", "reference:digest": "r:digest", "reference:tag": "r:tag",
+    "reference:close": "r:close", "reference:digest": "r:digest", "reference:tag": "r:tag",
     "log": "log",
 }
 LUA_STD = {"_G", "_VERSION", "_GOPHER_LUA_VERSION", "_printregs", "assert", "collectgarbage", "dofile", "error", "getfenv", "getmetatable",
@@ -343,15 +358,18 @@ def run(ctx):
     # 2. configs + expectations from TLC
     gen = ctx.tlc_scenarios("RegbotGen", "C19_gen.cfg", workers=4, label="config generator (both modes executed by the design spec)")
     confs = merge_modes(gen["scenarios"])
-    if len(confs) < 3000:
+    if len(confs) < 7000:
         raise vlib.ToolError("generator produced only %d configs" % len(confs))
     all_ops = set()
     for c in confs:
         all_ops |= ops_of(c)
     bindings, gone = check_alphabet(ctx, all_ops)
     if replay_conf is not None:
-        want = json.dumps([norm_tags(replay_conf["world"]), replay_conf["par"], replay_conf["scripts"]], sort_keys=True)
-        sel = [c for c in confs if json.dumps([norm_tags(c["world"]), c["par"], c["scripts"]], sort_keys=True) == want]
+        def rk(c):
+            return json.dumps([norm_tags(c["world"]), c["par"], c["scripts"]] + [c.get(d, x) for d, x in zip(DIMS, ("oci", "full", "default", "once"))],
+                              sort_keys=True)
+        want = rk(replay_conf)
+        sel = [c for c in confs if rk(c) == want]
         if len(sel) != 1:
             raise vlib.ToolError("the config of the replay file is not among the generated ones")
     else:
@@ -367,7 +385,7 @@ def run(ctx):
             c["id"] = "c%04d" % i
             solo = 1 if (len(c["scripts"]) > 1 and rng.random() < 0.15) else 0
             f.write(json.dumps({"id": c["id"], "world": norm_tags(c["world"]), "par": c["par"], "scripts": c["scripts"],
-                                "solo": solo}) + "\n")
+                                "solo": solo, "mt": c["mt"], "feat": c["feat"], "tmo": c["tmo"], "cmd": c["cmd"]}) + "\n")
 
     # 3. the real binary
     out_file = ctx.path("c19", "traces.jsonl")
@@ -396,10 +414,10 @@ def run(ctx):
             raise vlib.ToolError("malformed trace %s: %s at %s" % (r["trace"]["id"], detail, json.dumps(r["event"])[:400]))
         conf = r["trace"]["scenario"]
         sig = signature(r, conf)
-        what = "%s: %s in config %s (world %s, parallel %d, scripts %s)" % (
+        what = "%s: %s in config %s (world %s, %s, features %s, timeout %s, %s, parallel %d, scripts %s)" % (
             detail, json.dumps({k: v for k, v in (r["event"] or {}).items() if k not in ("drytxt", "nortxt")})[:300],
-            r["trace"]["id"], conf["wname"], conf["par"], json.dumps(conf["scripts"])[:400])
-        ctx.report(sig, what, {"config": {k: conf[k] for k in ("world", "par", "scripts")}, "events": r["trace"]["events"],
+            r["trace"]["id"], conf["wname"], conf["mt"], conf["feat"], conf["tmo"], conf["cmd"], conf["par"], json.dumps(conf["scripts"])[:400])
+        ctx.report(sig, what, {"config": {k: conf[k] for k in ("world", "par", "scripts", "mt", "feat", "tmo", "cmd")}, "events": r["trace"]["events"],
                                "rejected_at": r["line"], "cmd": "tools/check C19 --replay <this file>"})
 
     # 5. drift between the design spec and the code (evidence only)
@@ -472,13 +490,14 @@ def run(ctx):
         "traces_validated_against_impl": accepted,
         "samples": sample,
         "evaluations": len(traces),
-        "distinct_nontrivial": len({cfg_key({"world": c["wname"], "par": c["par"], "scripts": c["scripts"]}) for c in sel}),
+        "distinct_nontrivial": len({cfg_key(dict(c, world=c["wname"])) for c in sel}),
         "rule": "a config = initial world x parallel x 1-3 scripts of <= 4 statements over the documented API, generated by TLC "
                 "(RegbotGen); each is run by the real regbot binary with --dry-run (strace on: %s) and normally on the same world; "
                 "distinct = distinct configs" % bool(meta.get("strace")),
         "exhaustive": bool(ctx.thorough),
         "exhaustive_note": "thorough runs every generated config; quick a seeded sample holding every API function",
         "configs_generated": len(confs), "configs_run": len(sel), "families": fams,
+        "dimension_values_run": {d: sorted({(c["wname"] if d == "world" else c[d]) for c in sel}) for d in ("world", "mt", "feat", "tmo", "cmd")},
         "api_functions": sorted(all_ops), "requests_seen_in_dry_runs": nreq, "statements": nstmt,
         "read_results_compared": compared, "solo_control_runs": solo_runs,
         "dry_runs_that_wrote_the_export_tar": tarouts,
